@@ -138,6 +138,7 @@ class VT:
         self.inject: Dict[int, BaseException] = {}   # op index -> exception raised in place of the operation
         self.oplog: Optional[list] = None
         self.fire_tmo = False
+        self.observed = False         # True when code under test holds a Thread object for it (join / is_alive can see its end)
 
     def __repr__(self):
         return f'<VT {self.id} {self.name} {self.state}>'
@@ -276,7 +277,9 @@ class Sched:
                 raise
             except BaseException as e:  # noqa  (recorded; the thread then terminates like any other)
                 t.exc = e
-            self.op('exit', _true, _true, True)
+            # the end of a thread is visible only to whoever holds its Thread object (join, is_alive); the end of a harness thread
+            # (a scripted peer, the thread that calls Server.run) changes nothing any other thread can read: not a scheduling point
+            self.op('exit', _true, _true, t.observed)
         except Abort:
             t.state = 'aborted'
             return
@@ -742,6 +745,7 @@ class Thread:
         self.daemon = bool(daemon)
         self._vt = self._s.add_thread(name or 'T?', self._bootstrap)
         self._vt.name = name or f'T{self._vt.id}'
+        self._vt.observed = True
         self.name = self._vt.name
         self.uid = self._s.new_uid()
         self._started = False
